@@ -391,6 +391,15 @@ func (w *world) absorbValues(k int, in view, kind string) {
 	} else if !in.ValsNil {
 		m.vals = mergeIdx(m.vals, in.Vals)
 		m.shared = mergeIdx(m.shared, in.Vals)
+		if kind == "update" && w.a.Kind() == KindV2Cfg {
+			// v2 Update is given the COMPLETE set of committed values (its only caller writes back the map it
+			// read): entries absent from it are removed (repair c11be0a of F-zombie-tombstone)
+			for p := range m.vals {
+				if _, ok := in.Vals[p]; !ok {
+					delete(m.vals, p)
+				}
+			}
+		}
 	}
 	if canonVals(m.vals) != canonVals(m.applied) {
 		m.diverged = true
@@ -554,6 +563,7 @@ func (w *world) afterFailedWrite(k int, in view, kind, where string) error {
 				canonVals(saved.shared), canonVals(m.shared))
 		}
 		*m = saved
+		return vstat.Violf("%s after %s: store returned %s; not explained by the refused write's own values {%s} (nil=%v) either (%s)", keyName(k), where, cmp, canonVals(in.Vals), in.ValsNil, cmp2)
 	}
 	return vstat.Violf("%s after %s: store returned %s", keyName(k), where, cmp)
 }
